@@ -4,7 +4,8 @@ from __future__ import annotations
 
 from ..core import Run
 from ..effects import Effects
-from ..indexing import change_detection, hash_ack, remove_add_commit, stale_pages, zids_before_index
+from ..indexing import removal_internals, zids_before_index
+from ..indexscen import reindex_rules, writeback_rules
 from ..pymodel import PyModel
 
 
@@ -16,10 +17,10 @@ def check(run: Run) -> None:
     run.rule("C06.R3", "stale pages: names of the old map that are no longer on disk reach remove_file_by_name")
     run.rule("C06.R4", "hash acknowledgement covers only pages this command processed (both in reindex_database and in the write-back)")
     run.rule("C06.R5", "what is stored for a new note is what a fresh index would store: index body and file line drop the same leading word; no re-flowing split/join")
-    change_detection(run, model, "C06.R1")
-    remove_add_commit(run, model, eff, "C06.R2")
-    stale_pages(run, model, "C06.R3")
-    hash_ack(run, model, eff, "C06.R4")
+    # abstract runs of `db reindex` over generic worlds (new / changed / unchanged / fixed / vanished pages; a restricted reindex)
+    reindex_rules(run, model, dict(change="C06.R1", order="C06.R2", stale="C06.R3", ack="C06.R4"))
+    removal_internals(run, model, "C06.R2")
+    writeback_rules(run, model, "C06.R4")
     zids_before_index(run, model, "C06.R5")
     run.units = dict(functions=["handlers.reindex_database", "handlers._update_zo_file", "SQLRepo.remove_file_by_name", "SQLRepo.add_file", "_repo._add_zids"])
     run.assumptions += ["equality of index contents over edit histories is not decided; these are necessary conditions", "sha256 collisions ignored"]
